@@ -1099,7 +1099,8 @@ struct sLinkLayerPrimaryBalanced
     bool waitingForResponse;
     uint64_t lastSendTime;
     uint64_t originalSendTime;
-    bool sendLinkLayerTestFunction;
+    bool sendLinkLayerTestFunction; /* a test function was requested and is not yet sent */
+    bool testFunctionOutstanding;   /* the frame waiting for its confirmation is a test function (not user data) */
     bool nextFcb;
 
     int otherStationAddress;
@@ -1127,6 +1128,7 @@ LinkLayerPrimaryBalanced_init(LinkLayerPrimaryBalanced self, LinkLayer linkLayer
 
     self->waitingForResponse = false;
     self->sendLinkLayerTestFunction = false;
+    self->testFunctionOutstanding = false;
     self->nextFcb = true;
 
     self->linkLayer = linkLayer;
@@ -1214,9 +1216,6 @@ LinkLayerPrimaryBalanced_handleMessage(LinkLayerPrimaryBalanced self, uint8_t fc
         }
         else if (primaryState == PLL_EXECUTE_SERVICE_SEND_CONFIRM)
         {
-            if (self->sendLinkLayerTestFunction)
-                self->sendLinkLayerTestFunction = false;
-
             newState = PLL_LINK_LAYERS_AVAILABLE;
             llpb_setNewState(self, LL_STATE_AVAILABLE);
 
@@ -1419,6 +1418,10 @@ LinkLayerPrimaryBalanced_runStateMachine(LinkLayerPrimaryBalanced self)
             SendFixedFrame(self->linkLayer, LL_FC_02_TEST_FUNCTION_FOR_LINK, self->otherStationAddress, true,
                            self->linkLayer->dir, self->nextFcb, true);
 
+            /* the request is served; a request made while this frame is outstanding is a new one */
+            self->sendLinkLayerTestFunction = false;
+            self->testFunctionOutstanding = true;
+
             self->nextFcb = !(self->nextFcb);
             self->lastSendTime = currentTime;
             self->originalSendTime = self->lastSendTime;
@@ -1437,6 +1440,8 @@ LinkLayerPrimaryBalanced_runStateMachine(LinkLayerPrimaryBalanced self)
 
                 SendVariableLengthFrame(self->linkLayer, LL_FC_03_USER_DATA_CONFIRMED, self->otherStationAddress, true,
                                         self->linkLayer->dir, self->nextFcb, true, asdu);
+
+                self->testFunctionOutstanding = false;
 
                 self->nextFcb = !(self->nextFcb);
                 self->lastSendTime = currentTime;
@@ -1470,7 +1475,8 @@ LinkLayerPrimaryBalanced_runStateMachine(LinkLayerPrimaryBalanced self)
             {
                 DEBUG_PRINT("TIMEOUT: ASDU not confirmed\n");
 
-                if (self->sendLinkLayerTestFunction)
+                /* repeat the frame that is outstanding, whatever was requested in the meantime */
+                if (self->testFunctionOutstanding)
                 {
                     DEBUG_PRINT("PLL - repeat send test function\n");
 
@@ -1830,10 +1836,8 @@ LinkLayerSlaveConnection_HandleMessage(LinkLayerSlaveConnection self, uint8_t fc
         }
         else if (primaryState == PLL_EXECUTE_SERVICE_SEND_CONFIRM)
         {
-            if (self->sendLinkLayerTestFunction)
-                self->sendLinkLayerTestFunction = false;
-            else
-                self->hasMessageToSend = false;
+            /* only user data is sent with SEND/CONFIRM: the message is confirmed */
+            self->hasMessageToSend = false;
 
             llsc_setState(self, LL_STATE_AVAILABLE);
 
@@ -2098,6 +2102,9 @@ LinkLayerSlaveConnection_runStateMachine(LinkLayerSlaveConnection self)
             SendFixedFrame(self->primaryLink->linkLayer, LL_FC_02_TEST_FUNCTION_FOR_LINK, self->address, true, false,
                            self->nextFcb, true);
 
+            /* the request is served (it was never cleared: the test function was sent again and again) */
+            self->sendLinkLayerTestFunction = false;
+
             self->lastRequestFc = LL_FC_02_TEST_FUNCTION_FOR_LINK;
             self->nextFcb = !(self->nextFcb);
             self->lastSendTime = currentTime;
@@ -2177,20 +2184,11 @@ LinkLayerSlaveConnection_runStateMachine(LinkLayerSlaveConnection self)
             {
                 DEBUG_PRINT("[SLAVE %i] TIMEOUT: ASDU not confirmed\n", self->address);
 
-                if (self->sendLinkLayerTestFunction)
-                {
-                    DEBUG_PRINT("[SLAVE %i] PLL - SEND FC 02 - RESET REMOTE LINK [REPEAT]\n", self->address);
+                DEBUG_PRINT("[SLAVE %i] PLL - SEND FC 03 - USER DATA CONFIRMED [REPEAT]\n", self->address);
 
-                    SendFixedFrame(self->primaryLink->linkLayer, LL_FC_02_TEST_FUNCTION_FOR_LINK, self->address, true,
-                                   false, !(self->nextFcb), true);
-                }
-                else
-                {
-                    DEBUG_PRINT("[SLAVE %i] PLL - SEND FC 03 - USER DATA CONFIRMED [REPEAT]\n", self->address);
-
-                    SendVariableLengthFrame(self->primaryLink->linkLayer, LL_FC_03_USER_DATA_CONFIRMED, self->address,
-                                            true, false, !(self->nextFcb), true, (Frame) & (self->nextMessage));
-                }
+                /* the outstanding SEND/CONFIRM frame is always user data (the test function is a REQUEST/RESPOND service here) */
+                SendVariableLengthFrame(self->primaryLink->linkLayer, LL_FC_03_USER_DATA_CONFIRMED, self->address,
+                                        true, false, !(self->nextFcb), true, (Frame) & (self->nextMessage));
 
                 self->lastSendTime = currentTime;
             }
